@@ -214,7 +214,7 @@ func init() {
 			azs := c02Authorizers(c)
 			nb, na := int64(len(blocks)), int64(len(azs))
 			size := int64(len(auths)) * na * nb
-			return []*sup.Space{{Name: "append-cannot-widen", Size: func(*sup.Ctx) int64 { return size }, Run: func(i int64, w *sup.W) {
+			main := &sup.Space{Name: "append-cannot-widen", Size: func(*sup.Ctx) int64 { return size }, Run: func(i int64, w *sup.W) {
 				b := blockOf(blocks[i%nb])
 				i /= nb
 				az := azs[i%na]
@@ -256,7 +256,9 @@ func init() {
 				if w.WantSample(cls) {
 					w.Sample(cls, map[string]string{"case": human(), "T": parent.String(), "T+B": child.String()})
 				}
-			}}, c02ModesSpace(c)}
+			}}
+			// the small space first: a deadline then cuts only into the large product
+			return []*sup.Space{c02ModesSpace(c), main}
 		},
 	})
 }
